@@ -80,9 +80,18 @@ impl FunctionMarkupPass {
                 returns: ret,
             })
         }
-        // TODO: Handle functions with no return statements
+        // A function from which no return can be reached
         else {
-            Err(Box::new(CfgError::UnexpectedError))
+            let mut names = entry
+                .labels()
+                .iter()
+                .map(std::string::ToString::to_string)
+                .collect::<Vec<_>>();
+            names.sort();
+            Err(Box::new(CfgError::FunctionWithoutReturn(
+                entry.node(),
+                names.join(", "),
+            )))
         }
     }
 }
